@@ -491,6 +491,43 @@ def pvBytes (a b : UInt8) : Bytes :=
   [0x42, 0x00, 0x69, 0x01, 0, 0, 0, 0x20, 0x42, 0x00, 0x6A, 0x02, 0, 0, 0, 4, 0, 0, 0, a, 0, 0, 0, 0,
    0x42, 0x00, 0x6B, 0x02, 0, 0, 0, 4, 0, 0, 0, b, 0, 0, 0, 0]
 
+/-- **Exact consumption at the transport, unbuffered source.**  Given an io.ByteScanner the Decoder adds no buffer of its own; the
+    nested decoders' bufio readers do read ahead, but only inside limit readers.  So a successful Decode has taken from the
+    SOURCE ITSELF exactly its own message - 8 bytes plus the declared length - whatever the chunking; what the source still
+    holds is the flat remainder, ready for whoever reads it next (another Decoder included).  And the outcome is the flat
+    model's. -/
+theorem C06_decode_unbuffered_exact (sd : SD) (src : Io.Src) (hi : (Io.Stack.src src).Inv) :
+    viewS (Stk.decodeScanner sd src) = viewD (decodeSD sd src.flat src.fin) ∧
+    (∀ v n x, Stk.decodeScanner sd src = .ok (v, n, x) →
+      ∃ s', x.s = .src s' ∧ s'.flat = src.flat.drop n ∧ n = 8 + declaredLen src.flat ∧ x.last = 0) := by
+  unfold Stk.decodeScanner decodeSD decodeTop
+  by_cases hd : sd.descOk = true
+  · simp only [hd, if_true]
+    have hsim : Stk.Sim ⟨src.flat, src.fin, 0⟩ ⟨Io.Stack.src src, 0⟩ := ⟨rfl, rfl, hi, by trivial, rfl⟩
+    have hr := Stk.S_sim sd sd.tag _ _ hsim
+    refine ⟨view_of_rel hr, ?_⟩
+    intro v n x hx
+    rw [hx] at hr
+    cases hD : decStruct sd.tag sd ⟨src.flat, src.fin, 0⟩ with
+    | err e => rw [hD] at hr; simp [Stk.RelW] at hr
+    | panic p => rw [hD] at hr; simp [Stk.RelW] at hr
+    | ok r =>
+      obtain ⟨v', n', d'⟩ := r
+      rw [hD] at hr
+      obtain ⟨e1, ⟨hw, _, _, _, hl⟩, hreach⟩ := hr
+      simp only [Prod.mk.injEq] at e1 hw hl hreach
+      obtain ⟨rfl, rfl⟩ := e1
+      have hdec : decodeSD sd src.flat src.fin = .ok (v', n', d') := by
+        unfold decodeSD decodeTop; simp only [hd, if_true]; exact hD
+      obtain ⟨c1, _, c3⟩ := C06_exact_consumption sd src.flat src.fin v' n' d' hdec
+      obtain ⟨s', hs'⟩ := Io.reach_src hreach
+      refine ⟨s', hs', ?_, c1, ?_⟩
+      · have : x.s.content = src.flat.drop n' := by rw [← hw, c3]
+        rw [hs'] at this
+        exact this
+      · rw [← hl, c3]
+  · simp [hd, viewS, viewD]
+
 /-- C04 over a real transport: a fresh Decoder on a transport fragmenting its bytes in any way accepts exactly the streams that begin
     with a well-formed encoding (the independent reader `specDecode` of the flat bytes), with the value and the length it denotes -/
 theorem C04_equiv_over_any_transport (sd : SD) (src : Io.Src) (hi : (Io.Stack.top src).Inv) (v : Val) (n : Nat) :
